@@ -30,7 +30,7 @@ def run(ev, vd):
                 raise ToolError("vacuity guard: mutant configuration %s of %s should violate an invariant" % (c, m))
     ev.cov["model_mutants_detected"] = len(MUTANTS)
     jobs = [("ctl", cbin("doall"), t) for t in conc.TOPOS_CTL] + [("jitter", cbin("doall"), None), ("jitter", cbin("doall"), "2x2"),
-            ("free", fbin("doall"), None), ("free", fbin("doall"), "2x4"), ("free", fbin("doall"), "3+1"),
+            ("free", fbin("doall"), None), ("free", fbin("doall"), "2x4"), ("free", fbin("doall"), "3+1"), ("free", fbin("doall"), "1+1+1+1"),
             # sequences of regions over the whole pool (1..16 threads) confined to one resp. two CPUs
             # (synthetic 4x4 topology: the pool keeps 16 threads although the process is confined)
             ("pool16", ["taskset", "-c", "0", fbin("doall")], "4x4"), ("pool16", ["taskset", "-c", "0,1", fbin("doall")], "4x4")]
